@@ -16,6 +16,7 @@ package grandpa
 // `grandpaMessage` varying data type.
 
 import (
+	"bytes"
 	"encoding/hex"
 	"fmt"
 	"reflect"
@@ -588,7 +589,12 @@ func c14Run(line string) string {
 	var d reflect.Value
 	var derr error
 	if k.dec != nil {
+		orig := append([]byte{}, enc...) // snapshot: the decoder must not write to its input
 		d, derr = k.dec(enc)
+		if !bytes.Equal(orig, enc) {
+			out += " !mut:input"
+			enc = orig
+		}
 		if derr != nil {
 			out += " rt=err"
 		} else {
